@@ -377,10 +377,17 @@ def k_power(R, rng, thorough):
                 impl = 'err oob'
             drv_cases.append((case, impl))
     outs = R.ctx.driver.query(drv_lines)
+    def footprint(t):
+        # the property is about WHICH elements are touched: compare the set of subscripts, not how often or in which
+        # order they are read (caching x[0] or y[fl] in a local changes the sequence, not the footprint)
+        if not t.startswith('ok'):
+            return t
+        return 'ok ' + ','.join(sorted(set(t[3:].split(',')) - {''}))
+
     for (case, impl), m in zip(drv_cases, outs):
         R.ctx.traces_validated += 1
-        if m != impl:
-            R.ctx.disagree('linear_interp access trace', case, m, impl)
+        if footprint(m) != footprint(impl):
+            R.ctx.disagree('linear_interp access footprint', case, m, impl)
 
 
 def k_hod(R, rng):
